@@ -200,13 +200,21 @@ def addToMem (s : State) (name : Name) (att : Option Attempt) (size : Nat) (pl :
 def reserved (s : State) (size : Nat) : State := { s with mem := (MemCache.tryReserve s.mem size).1 }
 def released (s : State) (size : Nat) : State := { s with mem := MemCache.release s.mem size }
 
+/-- the disk path of `WriteBlobToCacheWithMetaInfo`: the blob is written and verified like any cache file;
+metainfo with the caller's piece length (chosen for a blob of `size` bytes) is generated only when the
+written blob has exactly that length, otherwise it is left to the caller -/
+def writeDisk (s : State) (name : Name) (size : Nat) (att : Option Attempt) (pl : Int) : State × Res :=
+  if (writeCacheFile H crc s name att false 0).2 = .ok ∧ att.map (·.data.length) = some size then
+    genMetaFromFile crc (writeCacheFile H crc s name att false 0).1 name pl
+  else writeCacheFile H crc s name att false 0
+
 /-- `WriteBlobToCacheWithMetaInfo(name, size, write, pieceLength)` -/
 def writeBlob (s : State) (name : Name) (size : Nat) (atts : List Attempt) (pl : Int) : State × Res :=
   if s.cfg.memEnabled && (MemCache.tryReserve s.mem size).2 then
     match addToMem H crc (reserved s size) name atts.head? size pl with
     | some s2 => (s2, .ok)
-    | none => writeCacheFile H crc (released (reserved s size) size) name (atts.drop 1).head? true pl
-  else writeCacheFile H crc s name atts.head? true pl
+    | none => writeDisk H crc (released (reserved s size) size) name size (atts.drop 1).head? pl
+  else writeDisk H crc s name size atts.head? pl
 
 /-- `CreateCacheFile(name, r)` -/
 def createCache (s : State) (name : Name) (b : Bytes) : State × Res :=
